@@ -199,4 +199,118 @@ theorem run_sim4 (P : Prog) : ∀ (evs : List Ev) (g : Bool) (p : Option (List N
 
 theorem sim4_init (P : Prog) (nf : Nat) : Sim4 P false none (init nf) (init nf) := sim3_init P nf
 
+/-! ### the reference history `unpaused4`: no pause, no play, the other requests in their original order; ticks dropped or
+moved later -/
+
+theorem evImage4_cases (g : Bool) (p : Option (List Nat)) (c : Cfg) (x : Ev) :
+    evImage4 g p c x = [] ∧ (x = .tick ∨ x = .pause ∨ x = .play) ∨ evImage4 g p c x = [x] ∧ x ≠ .pause ∧ x ≠ .play := by
+  by_cases h1 : x = .tick
+  · subst h1
+    have ne1 : Ev.tick ≠ Ev.pause := by intro h; cases h
+    have ne2 : Ev.tick ≠ Ev.play := by intro h; cases h
+    cases p with
+    | none =>
+      by_cases hd : defers c = true
+      · exact Or.inl ⟨by simp [evImage4, hd], Or.inl rfl⟩
+      · have hdf : defers c = false := by simpa using hd
+        have : evImage4 g none c .tick = evImage3 g c .tick := by simp [evImage4, hdf]
+        rw [this]; exact evImage3_cases g c .tick
+    | some L =>
+      by_cases hr : runsBody c = true
+      · exact Or.inr ⟨by simp [evImage4, hr], ne1, ne2⟩
+      · have hrf : runsBody c = false := by simpa using hr
+        exact Or.inl ⟨by simp [evImage4, hrf], Or.inl rfl⟩
+  · rw [evImage4_nontick g p c x h1]; exact evImage3_cases g c x
+
+theorem unpaused4_no_pp (P : Prog) : ∀ (evs : List Ev) (g : Bool) (p : Option (List Nat)) (c : Cfg),
+    ∀ e ∈ unpaused4 P g p c evs, e ≠ .pause ∧ e ≠ .play := by
+  intro evs
+  induction evs with
+  | nil =>
+    intro g p c e he
+    simp only [unpaused4] at he
+    split at he
+    · simp at he; subst he; exact ⟨(by intro h; cases h), (by intro h; cases h)⟩
+    · cases he
+  | cons x rest ih =>
+    intro g p c e he
+    simp only [unpaused4, List.mem_append] at he
+    rcases he with he | he
+    · rcases evImage4_cases g p c x with ⟨h1, _⟩ | ⟨h1, h2⟩
+      · rw [h1] at he; cases he
+      · rw [h1] at he; simp at he; subst he; exact h2
+    · exact ih _ _ _ e he
+
+/-- the requests other than ticks are those of the history with pauses, **in the same order**: the wake-ups of a hold are moved
+before the deferred tick by moving the tick, not the requests -/
+theorem unpaused4_nonticks (P : Prog) : ∀ (evs : List Ev) (g : Bool) (p : Option (List Nat)) (c : Cfg),
+    (unpaused4 P g p c evs).filter (fun e => !isTick e) = (erasePP evs).filter (fun e => !isTick e) := by
+  intro evs
+  induction evs with
+  | nil =>
+    intro g p c
+    simp only [unpaused4]
+    split <;> rfl
+  | cons x rest ih =>
+    intro g p c
+    have := ih (nextG4 g c x) (nextP p c x) (step P c x).1
+    simp only [unpaused4]
+    rcases evImage4_cases g p c x with ⟨h1, h2⟩ | ⟨h1, h2, h3⟩
+    · rw [h1]
+      rcases h2 with rfl | rfl | rfl
+      · simpa [erasePP, isTick] using this
+      · simpa [erasePP] using this
+      · simpa [erasePP] using this
+    · rw [h1, erasePP_cons_keep x rest h2 h3]
+      simp only [List.cons_append, List.nil_append, List.filter_cons]
+      rw [this]
+
+/-- apart from one tick possibly delivered after the last request, the reference history is a sublist of the history with
+pauses: ticks are dropped, or emitted at the position of a later tick -/
+theorem unpaused4_sublist (P : Prog) : ∀ (evs : List Ev) (g : Bool) (p : Option (List Nat)) (c : Cfg),
+    (unpaused4 P g p c evs).Sublist (erasePP evs ++ [.tick]) := by
+  intro evs
+  induction evs with
+  | nil =>
+    intro g p c
+    simp only [unpaused4]
+    split
+    · exact List.Sublist.refl _
+    · exact List.nil_sublist _
+  | cons x rest ih =>
+    intro g p c
+    have := ih (nextG4 g c x) (nextP p c x) (step P c x).1
+    simp only [unpaused4]
+    rcases evImage4_cases g p c x with ⟨h1, h2⟩ | ⟨h1, h2, h3⟩
+    · rw [h1]
+      rcases h2 with rfl | rfl | rfl
+      · exact List.Sublist.cons _ this
+      · exact this
+      · exact this
+    · rw [h1, erasePP_cons_keep x rest h2 h3]
+      exact List.Sublist.cons_cons _ this
+
+/-- **the fourth class contains the third** (whatever the deferral state) -/
+theorem admissible3_sub4 (P : Prog) : ∀ (evs : List Ev) (g : Bool) (p : Option (List Nat)) (c : Cfg),
+    admissible3 P g c evs = true → admissible4 P g p c evs = true := by
+  intro evs
+  induction evs with
+  | nil => intro g p c _; rfl
+  | cons x rest ih =>
+    intro g p c h
+    simp only [admissible3, Bool.and_eq_true] at h
+    simp only [admissible4, Bool.and_eq_true]
+    by_cases h1 : x = .tick
+    · subst h1; exact ⟨rfl, ih _ _ _ h.2⟩
+    · by_cases h2 : x = .pause
+      · subst h2; exact ⟨rfl, ih _ _ _ h.2⟩
+      · by_cases h3 : x = .play
+        · subst h3; exact ⟨rfl, ih _ _ _ h.2⟩
+        · obtain ⟨hw, hok⟩ := evAllowed3_wake g c x h.1 h1 h2 h3
+          have hng : nextG4 g c x = nextG3 g c x := by rw [nextG4_wake g c x hw, if_pos hok]
+          rw [hng]
+          refine ⟨?_, ih _ _ _ h.2⟩
+          have hok4 : wakeOk4 g p c x = true := by simp [wakeOk4, hok]
+          cases x <;> first | (simp [evAllowed4, hw, hok4]) | exact absurd rfl h1 | exact absurd rfl h2 | exact absurd rfl h3
+
 end PMF
